@@ -404,9 +404,17 @@ func runC36(p *Prog, r *Result) {
 		fmt.Sprintf("stdin and file paths derive the language differently (stdin: %s | file: %s): the same script formats differently through a pipe", ds, dp))
 	checkPropsOptionsOnEveryPath(p, r, pkg, fb, g)
 	checkModeTable(p, r, pkg, fb, mainFD, g, eq, resObj)
+	r.Rule("R36e", "the regular expressions that decide which files a tree run touches anchor every branch of a top-level alternation alike", 3)
+	checkRegexpAnchoring(p, r, "R36e", []string{"cmd/shfmt", "fileutil"})
+	r.Rule("R36f", "the language detected from a shebang is detected from the very bytes that are formatted, in the file mode and in the stdin mode alike", 2)
+	checkShebangFromFormattedBytes(p, r, "R36f")
 }
 
 var c36Controls = []Control{
+	{Name: "file-mode-sniffs-a-prefix", Rule: "R36f", WantKey: "formatPath#the language comes from the shebang", File: "cmd/shfmt/main.go",
+		Mutate: ctlReplaceAnywhere("l.Set(fileutil.Shebang(readBuf.Bytes()))", "l.Set(fileutil.Shebang(copyBuf[:32]))")},
+	{Name: "vcs-pattern-loses-its-grouping", Rule: "R36e", WantKey: "cmd/shfmt#regexp", File: "cmd/shfmt/main.go",
+		Mutate: ctlReplaceAnywhere("regexp.MustCompile(`^\\.(git|svn|hg)$`)", "regexp.MustCompile(`^\\.(git|svn|hg)|_darcs|CVS$`)")},
 	{Name: "list-null-exits-zero", Rule: "R36d", WantKey: "--list=0 alone: differs status returned", File: "cmd/shfmt/main.go",
 		Mutate: ctlReplace("formatBytes", `list.val != "false" && !write.val`, `list.val == "true" && !write.val`, 0)},
 	{Name: "editorconfig-fast-path", Rule: "R36c", WantKey: "propsOptions before every Print", File: "cmd/shfmt/main.go",
